@@ -28,6 +28,15 @@ func init() {
 }
 
 func c15Rules(tier string) []Rule {
+	rules := c15RulesBase(tier)
+	// the labels / annotations resolved at launch are persisted before Launched=True is: a requeue that already sees
+	// Launched skips Launch and would never write them again (the NodeClaim then looks drifted from its NodePool)
+	rules = append(rules, NOREACH{ID: "C15.NR1", Fn: "(*life.Controller).Reconcile", From: `^call iface:\(cr/client\.SubResourceWriter\)\.Patch\(iface:\(cr/client\.StatusClient\)\.Status\(\$0\.kubeClient\), `,
+		Sink: `^call iface:\(cr/client\.Writer\)\.Patch\(\$0\.kubeClient, `, Note: "no metadata patch after the status patch"})
+	return rules
+}
+
+func c15RulesBase(tier string) []Rule {
 	const (
 		hash   = "(*apis/v1.NodePool).Hash"
 		static = "controllers/nodeclaim/disruption.areStaticFieldsDrifted"
